@@ -243,10 +243,10 @@ def _reader_common(p, styles=("file", "socket"), lemmas=()):
         p.replayers[u.name] = ru.replay_step
     for lm in lemmas:
         p.add(CustomUnit(f"lemma.reader/{lm}", ru.lemma_unit, (lm,), props=(p.prop,), cost=5))
-    if "socket" in styles and p.prop == "C09":
-        # the socket-style abstract stream stands for SocketWrapper: its clauses are the wrapper's contracts. C09's claim
-        # for sockets whose peer stops after k bytes rests on exactly those contracts (what a short read returns and
-        # keeps), so C09 discharges them on the real wrapper itself, as C10 does in its own plan. C06 / C11 / C12 keep
+    if "socket" in styles and p.prop in ("C07", "C09"):
+        # the socket-style abstract stream stands for SocketWrapper: its clauses are the wrapper's contracts. The claims of
+        # C07 and C09 for socket streams rest on exactly those contracts (what a read returns, consumes and keeps), so
+        # these two plans discharge them on the real wrapper itself, as C10 does in its own plan. C06 / C11 / C12 keep
         # using them as stated assumptions: those properties can hold on a wrapper that breaks its contract, and a
         # failing wrapper obligation there would be an alarm on code where the property holds.
         for m in ("_recv", "read", "readline"):
@@ -286,7 +286,10 @@ def plan_C07(p, tier, seed):
         "(None, None) only when pos' == n; every non-terminal step consumes >= 1 byte; (b) equal to the executable "
         "step specification. _read_bytes / _read_line are verified against functional contracts. The whole-iteration "
         "claim follows by the SMT-checked trace invariant (items disjoint and increasing).")
-    _reader_common(p, styles=("file",), lemmas=("basic[file]", "eof_at_end[file]"))
+    # "every byte stream whatsoever" includes sockets: socket-style step and its lemmas, and - as in C09 - the contracts of
+    # the real SocketWrapper that the socket-style abstract stream stands for (a wrapper that drops, repeats or withholds
+    # bytes breaks "non-overlapping slices in input order" / "nothing is left unread" for socket streams)
+    _reader_common(p, lemmas=("basic[file]", "eof_at_end[file]", "basic[socket]", "eof_at_end[socket]"))
     p.func(R + "_read_bytes")
     p.func(R + "_read_line")
     p.add(CustomUnit("lemma.lifting/C07", ru.lifting_unit, ("C07",), props=("C07",)))
